@@ -10,6 +10,7 @@ import Pdt.Model.Verbs
 import Pdt.Model.Ops
 import Pdt.Model.Impl
 import Pdt.Model.Strings
+import Pdt.Model.Export
 import Pdt.Gen.OpTable
 import Pdt.Gen.Casts
 
@@ -124,6 +125,21 @@ def handle (j : Json) : Except String String := do
       let (v, _) ← Codec.litOfJson (← j.getObjVal? "arg")
       let t ← Codec.dtypeOfJson (← j.getObjVal? "to")
       pure (Ops.castVal v t).toText
+  | "export_targets" =>
+      let names ← (← (← j.getObjVal? "names").getArr?).toList.mapM (·.getStr?)
+      let rows ← (← (← j.getObjVal? "rows").getArr?).toList.mapM (fun r => do
+        (← r.getArr?).toList.mapM (fun c => do let (v, _) ← Codec.litOfJson c; pure v))
+      let f : Export.Frame := ⟨names, rows⟩
+      let vj (v : Val) : Json := Json.str v.toText
+      let dol := Json.arr ((Export.dictOfLists f).map (fun c => Json.arr #[Json.str c.1, Json.arr (c.2.map vj).toArray])).toArray
+      let lod := Json.arr ((Export.listOfDicts f).map (fun d => Json.arr (d.map (fun kv => Json.arr #[Json.str kv.1, vj kv.2])).toArray)).toArray
+      let dct := match Export.dict f with
+        | .ok d => Json.arr (d.map (fun kv => Json.arr #[Json.str kv.1, vj kv.2])).toArray
+        | .typeError => Json.str "TypeError"
+      let sc := match Export.scalar f with
+        | .ok v => vj v
+        | .typeError => Json.str "TypeError"
+      pure (Json.mkObj [("dict_of_lists", dol), ("list_of_dicts", lod), ("dict", dct), ("scalar", sc)]).compress
   | "quote" =>
       let t ← j.getObjValAs? String "s"
       pure (Json.str (String.ofList (Strings.quote t.toList))).compress
